@@ -2,6 +2,7 @@ package main
 
 import (
 	"fmt"
+	"go/types"
 	"strings"
 
 	"golang.org/x/tools/go/ssa"
@@ -103,6 +104,17 @@ func didGenesisRules(p *Prog, r *Report, m *didModel, clause string) {
 	}
 	// the lister iterates the whole prefix: Iterator over prefix store with empty start prefix
 	for it := range m.iters {
+		// a lister hands back what it iterates over (a slice result); a function that merely walks the store (an invariant, a
+		// validation pass) lists nothing
+		isLister := false
+		for i := 0; i < it.Signature.Results().Len(); i++ {
+			if _, ok := it.Signature.Results().At(i).Type().Underlying().(*types.Slice); ok {
+				isLister = true
+			}
+		}
+		if !isLister {
+			continue
+		}
 		oi := NewOrigin(p, it)
 		for _, cs := range findCalls(it, "sdk/types.KVStorePrefixIterator") {
 			t := oi.Of(cs.Instr.(*ssa.Call))
